@@ -380,6 +380,21 @@ def table_children(tb):
     return out
 
 
+def _is_annotation_table(c):
+    ty = str(c.get_type()).lower()
+    return 'type' in ty or 'bound' in ty or 'alias' in ty or 'annotation' in ty
+
+
+def annotation_tables(tb):
+    """the PEP 695 annotation-scope tables nested directly (through annotation scopes only) in real scope table `tb`"""
+    out = []
+    for c in tb.get_children():
+        if _is_annotation_table(c):
+            out.append(c)
+            out.extend(annotation_tables(c))
+    return out
+
+
 def sym_classes(tb):
     """map one symtable table onto what is well defined of pfst's seven classes.  Returns dict of sets plus 'all'."""
     d = {k: set() for k in ('referenced', 'assigned', 'global_decl', 'nonlocal', 'param', 'imported', 'local', 'free', 'global_impl',
